@@ -579,6 +579,109 @@ fn after_a_long_history(out: &mut JobOut) {
     }
 }
 
+/// Far field. Farther outside than 1/epsilon end-interval widths the value of the *exact* end cubic
+/// says nothing any more (an error of one ulp in a stored coefficient is multiplied by t^3), so the
+/// reference of the main phase is vacuous there. What the property still demands is that the result
+/// is the *stored* end piece evaluated at the query, up to the rounding of that evaluation. The stored
+/// coefficients are read from the `Debug` text of the interpolator (both types derive `Debug`); a
+/// text that cannot be parsed makes the case a skipped one, never a violation. For every axis, end
+/// condition, lane (lines, a parabola, a wavy lane), side and distance 2^k widths:
+/// |observed - piece(t)| <= 64 eps * (sum of the magnitudes of the terms of the piece).
+fn far_field(out: &mut JobOut) {
+    use ndarray::Array1;
+    use ndarray_interp::interp1d::cubic_spline::{BoundaryCondition, CubicSpline};
+    use ndarray_interp::interp1d::Interp1DBuilder;
+    fn floats_after<'a>(dbg: &'a str, field: &str, parse: &dyn Fn(&str) -> Option<f64>) -> Option<(Vec<f64>, &'a str)> {
+        let start = dbg.find(field)? + field.len();
+        let rest = &dbg[start..];
+        let end = rest.find("shape=")?;
+        let body = &rest[..end];
+        if body.contains("...") {
+            return None;
+        }
+        let mut v = vec![];
+        for tok in body.split(|c: char| c == '[' || c == ']' || c == ',' || c.is_whitespace()) {
+            if !tok.is_empty() {
+                v.push(parse(tok)?);
+            }
+        }
+        Some((v, &rest[end..]))
+    }
+    let axes: Vec<Vec<f64>> = vec![vec![0.0, 1.0, 2.0, 3.0, 4.0], vec![-3.0, -1.0, 0.0, 4.0], vec![0.5, 1.0, 3.0], vec![-6.0, -5.0, -4.5, -4.25, -4.0, -2.0]];
+    let lanes: Vec<(&str, Box<dyn Fn(usize, f64) -> f64>)> = vec![
+        ("2x+1", Box::new(|_, x| 2.0 * x + 1.0)),
+        ("-3x+0.5", Box::new(|_, x| -3.0 * x + 0.5)),
+        ("x/2-4", Box::new(|_, x| 0.5 * x - 4.0)),
+        ("7", Box::new(|_, _| 7.0)),
+        ("x^2-x", Box::new(|_, x| x * x - x)),
+        ("wavy", Box::new(|i, _| ((i * 3) % 5) as f64 - 1.5)),
+    ];
+    macro_rules! run {
+        ($t:ty, $name:expr, $ks:expr) => {{
+            let eps = <$t>::EPSILON as f64;
+            let parse = |s: &str| s.parse::<$t>().ok().map(|v| v as f64);
+            for ax in &axes {
+                let n = ax.len();
+                let x: Array1<$t> = ax.iter().map(|&v| v as $t).collect();
+                for (lname, lane) in &lanes {
+                    let y: Array1<$t> = ax.iter().enumerate().map(|(i, &v)| lane(i, v) as $t).collect();
+                    for (bname, bc) in [("NotAKnot", BoundaryCondition::NotAKnot), ("Natural", BoundaryCondition::Natural), ("Clamped", BoundaryCondition::Clamped)] {
+                        let Ok(Ok(ip)) = catch(|| Interp1DBuilder::new(y.clone()).x(x.clone()).strategy(CubicSpline::new().extrapolate(true).boundary(bc)).build()) else {
+                            out.violate(format!("far:{}:{ax:?}:{lname}:{bname}:build", $name), "build failed".to_string(), Json::Null);
+                            continue;
+                        };
+                        out.states += 1;
+                        let text = format!("{ip:?}");
+                        let coeffs = floats_after(&text, "CubicSplineStrategy { a: ", &parse).and_then(|(a, rest)| floats_after(rest, ", b: ", &parse).map(|(b, _)| (a, b)));
+                        let Some((a, b)) = coeffs.filter(|(a, b)| a.len() == n - 1 && b.len() == n - 1) else {
+                            out.outcome("far:stored piece not readable (skipped)");
+                            continue;
+                        };
+                        for right in [false, true] {
+                            let i = if right { n - 2 } else { 0 };
+                            let (xl, xr) = (x[i], x[i + 1]);
+                            let h = xr - xl;
+                            for &k in $ks.iter() {
+                                let step = h * (2.0 as $t).powi(k);
+                                let q: $t = if right { xr + step } else { xl - step };
+                                if !q.is_finite() {
+                                    continue;
+                                }
+                                out.transitions += 1;
+                                let t = (q as f64 - xl as f64) / (xr as f64 - xl as f64);
+                                let (yl, yr) = (y[i] as f64, y[i + 1] as f64);
+                                let expected = (1.0 - t) * yl + t * yr + t * (1.0 - t) * (a[i] * (1.0 - t) + b[i] * t);
+                                let mag = ((1.0 - t) * yl).abs() + (t * yr).abs() + (t * (1.0 - t)).abs() * ((a[i] * (1.0 - t)).abs() + (b[i] * t).abs());
+                                let tol = 64.0 * eps * mag;
+                                if !(mag.is_finite() && mag < <$t>::MAX as f64 / 4.0) {
+                                    continue;
+                                }
+                                out.evals += 1;
+                                let sharp = tol <= 0.01 * expected.abs();
+                                if sharp {
+                                    out.nontrivial += 1;
+                                }
+                                let got = catch(|| ip.interp_scalar(q));
+                                let ok = matches!(&got, Ok(Ok(v)) if ((*v as f64) - expected).abs() <= tol);
+                                out.outcome(if ok { if sharp { "far:equal to the stored piece (sharp)" } else { "far:within the rounding of the stored piece" } } else { "far:differs" });
+                                if !ok {
+                                    out.violate(
+                                        format!("far:{}:{ax:?}:{lname}:{bname}:{right}:{k}", $name),
+                                        format!("{} CubicSpline({bname})+extrapolate, data {lname} on {ax:?}: q = {q:e} ({} 2^{k} end-interval widths outside) is answered with {:?}; the stored end piece (a = {:e}, b = {:e}) evaluated there gives {expected:e} (tol {tol:e})", $name, if right { "right," } else { "left," }, got.map(|r| r.map(|v| v as f64).map_err(|e| e.to_string())), a[i], b[i]),
+                                        Json::obj(vec![("type", Json::str($name)), ("x", Json::f64s(ax)), ("lane", Json::str(lname)), ("boundary", Json::str(bname)), ("query", Json::Num(q as f64)), ("expected", Json::Num(expected))]),
+                                    );
+                                }
+                            }
+                        }
+                    }
+                }
+            }
+        }};
+    }
+    run!(f64, "f64", [10, 40, 52, 53, 55, 60, 80, 100, 200]);
+    run!(f32, "f32", [10, 20, 23, 24, 26, 30, 36]);
+}
+
 /// Integer element types: Linear / Bilinear with extrapolate(true) on i32 / i64 axes (left of zero,
 /// right of zero, across zero, starting at zero). The data have whole-numbered slopes per interval,
 /// so the end line evaluated at any whole-numbered query is exact whatever the order of operations.
@@ -746,6 +849,11 @@ fn body(ctx: &Ctx) -> (Summary, Meta) {
         integer_axes(&mut out);
         out
     }));
+    sum.merge(run_jobs(ctx, "far-field", &[()], |_| "far-field".to_string(), |_| {
+        let mut out = JobOut::default();
+        far_field(&mut out);
+        out
+    }));
     sum.merge(run_jobs(ctx, "builder-option-histories", &[()], |_| "builder-option-histories".to_string(), |_| {
         let mut out = JobOut::default();
         nimc::subj::check_spline_option_histories(4, &|_b, e| e, &mut out);
@@ -755,7 +863,7 @@ fn body(ctx: &Ctx) -> (Summary, Meta) {
         out
     }));
     let meta = Meta {
-        rule: "for every (axis, strategy) pair build the extrapolating interpolator and its non-extrapolating twin: (i) every finite outside query {1,2 ulp, 2^-10 P, P/4, P, 3P, 100P on both sides, +-MAX} is answered through 6 call forms incl. 2-d and dynamic query arrays and *_into; (ii) in-range results are bit-identical to the twin; (iii) outside values equal the exact continuation of the end chord / the certified exact end cubic / the border cell's bilinear form (2-D: outside in x, in y, in both). Non-trivial = an outside query compared with the exact continuation. After 70000 in-range queries on a geometric axis (single and batched) the extrapolated answers equal those of a fresh interpolator. After a caught panic (NaN query, NaN inside a batch, wrongly shaped buffer) every extrapolating interpolator still answers every finite query with the same bits. Phase builder-option-histories: every sequence of up to 4 CubicSpline option calls over {boundary(NotAKnot), boundary(Natural), boundary(Periodic), extrapolate(true), extrapolate(false)} that denotes an extrapolating configuration answers 18 queries (in range, just outside, far outside) bit-identically to the canonical two-call history of that configuration. Phase integer-axes: Linear and Bilinear with extrapolate(true) over 8 i32 / i64 axes (left of zero, right of zero, across zero, from zero) with whole-numbered slopes per interval: every whole-numbered query within 30 (2-D: 12) of the range on every side equals the line of the nearest end interval / the bilinear form exactly; in range equal to the non-extrapolating interpolator.".into(),
+        rule: "for every (axis, strategy) pair build the extrapolating interpolator and its non-extrapolating twin: (i) every finite outside query {1,2 ulp, 2^-10 P, P/4, P, 3P, 100P on both sides, +-MAX} is answered through 6 call forms incl. 2-d and dynamic query arrays and *_into; (ii) in-range results are bit-identical to the twin; (iii) outside values equal the exact continuation of the end chord / the certified exact end cubic / the border cell's bilinear form (2-D: outside in x, in y, in both). Non-trivial = an outside query compared with the exact continuation. After 70000 in-range queries on a geometric axis (single and batched) the extrapolated answers equal those of a fresh interpolator. After a caught panic (NaN query, NaN inside a batch, wrongly shaped buffer) every extrapolating interpolator still answers every finite query with the same bits. Phase builder-option-histories: every sequence of up to 4 CubicSpline option calls over {boundary(NotAKnot), boundary(Natural), boundary(Periodic), extrapolate(true), extrapolate(false)} that denotes an extrapolating configuration answers 18 queries (in range, just outside, far outside) bit-identically to the canonical two-call history of that configuration. Phase integer-axes: Linear and Bilinear with extrapolate(true) over 8 i32 / i64 axes (left of zero, right of zero, across zero, from zero) with whole-numbered slopes per interval: every whole-numbered query within 30 (2-D: 12) of the range on every side equals the line of the nearest end interval / the bilinear form exactly; in range equal to the non-extrapolating interpolator. Phase far-field: CubicSpline with extrapolate(true) over 4 axes x 6 lanes (lines, a constant, a parabola, a wavy lane) x {NotAKnot, Natural, Clamped}, f64 and f32, both sides, 2^10 .. 2^200 (f32: 2^36) end-interval widths outside: the answer equals the *stored* end piece (coefficients read from the Debug text of the interpolator; unreadable = skipped and shown among the outcomes) evaluated at the query within 64 eps of the sum of the magnitudes of its terms; non-trivial = that allowance is below 1% of the value.".into(),
         bounds: format!("{njobs} (type, axis/grid, strategy) jobs; Linear on value-set subsets + words + long words; CubicSpline on word axes n<=7 x 32 non-periodic boundary configurations; Bilinear on all ordered pairs of the 2-D axis set; tier {}", ctx.tier.name()),
         assumptions: vec!["tolerances: Linear 8 eps max(|y1|,|y2|,|t||y2-y1|); spline 16 K eps scale max(1,|t|)^3 (see C16); bilinear 24 eps max|z| (1+|tx|)(1+|ty|)".into()],
         extra: vec![],
